@@ -25,7 +25,9 @@ def descending_ranges():
     pts = [0x21, 0x2D, 0x30, 0x39, 0x41, 0x5A, 0x5B, 0x5C, 0x5D, 0x5E, 0x61, 0x7A, 0x7E]
 
     def forms(c):
-        f = ["\\x%02X" % c, "\\x%04X" % c]
+        f = ["\\x%02X" % c, "\\x%04X" % c, "\\x%08X" % c]               # 2, 4 and 8 digits: the ends of the documented widths
+        if c in (0x41, 0x5A):
+            f += ["\\x%05X" % c, "\\x%06X" % c, "\\x%07X" % c]
         if chr(c).isalnum():
             f.append(chr(c))
         return f
@@ -45,7 +47,8 @@ CATEGORIES = ("Math Emoji Latin Greek Cyrillic Han Persian Letter Lu Ll Lt Lm Lo
               "Punctuation Pc Pd Ps Pe Pi Pf Po P Separator Zs Zl Zp Z Symbol Sm Sc Sk So S").split()
 CATEGORY_CANON = [f % c for c in CATEGORIES for f in ("\\p{%s}", "\\P{%s}", "[a\\p{%s}]", "(x|\\P{%s})+y")]
 
-HAND_CANON = CATEGORY_CANON + ["[a-c]-a", "[0-9]-[0-9]", "[a-c]-", "a-b", "[a\\x2D]", "-?[0-9]+(\\.[0-9]+)?", "[A-Za-z_][0-9A-Za-z_]*",
+HAND_CANON = CATEGORY_CANON + ["[A-\\x0000005A]", "[\\x00000041-\\x0000005A]", "[\\x00041-\\x0005A]", "[\\x000041-\\x00005A]", "[\\x0000041-\\x000005A]",
+                               "\\x00000041+", "a\\x0000005A{2}", "[^\\x00000041]","[a-c]-a", "[0-9]-[0-9]", "[a-c]-", "a-b", "[a\\x2D]", "-?[0-9]+(\\.[0-9]+)?", "[A-Za-z_][0-9A-Za-z_]*",
               "\"([\\x21\\x23-\\x5B\\x5D-\\x7E]|\\\\[\\x21-\\x7E])+\"", "(#|//)[\\x09\\x20-\\x7E]*|/\\*[\\x09\\x0A\\x0D\\x20-\\x7E]*?\\*/"]
 
 
